@@ -602,7 +602,9 @@ template <typename T, typename C, typename Mk, typename MkMpi> Sx run_ops(Spec<T
             std::istream piped(&pipe);
             std::istream& in = sp.noseek ? piped : static_cast<std::istream&>(seekable);     // (noseek: a stream that cannot seek, like a pipe)
             if (sp.iexc) in.exceptions(std::ios::failbit | std::ios::badbit);     // a user who wants read errors reported by exceptions
-            C n = reload<T>(chk, in);
+            C n(chk);
+            // (with exceptions enabled a read error arrives as std::ios_base::failure instead of a failed stream: the same observation)
+            try { n = reload<T>(chk, in); } catch (std::ios_base::failure const&) { in.exceptions(std::ios::goodbit); in.setstate(std::ios::failbit); }
             if (in.fail()) { out.add(Sx::list({Sx::sym("reload"), Sx::sym("stream_failed")})); break; }
             chk = n;
             out.add(Sx::list({Sx::sym("reload"), Sx::sym("ok")}));
@@ -633,7 +635,8 @@ template <typename T, typename C, typename Mk, typename MkMpi> Sx run_ops(Spec<T
             std::ifstream in(op.at(1).S_(), std::ios::binary);
             if (!in) { out.add(Sx::list({Sx::sym("load"), Sx::sym("no_file")})); continue; }
             if (sp.iexc) in.exceptions(std::ios::failbit | std::ios::badbit);
-            C n = reload<T>(chk, in);
+            C n(chk);
+            try { n = reload<T>(chk, in); } catch (std::ios_base::failure const&) { in.exceptions(std::ios::goodbit); in.setstate(std::ios::failbit); }
             if (in.fail()) { out.add(Sx::list({Sx::sym("load"), Sx::sym("stream_failed")})); break; }
             chk = n;
             out.add(Sx::list({Sx::sym("load"), Sx::num(chk.results().size())}));
